@@ -250,7 +250,7 @@ Plan gen_c01(uint64_t seed, const GenOpts &o) {
     switch (g.r.below(9)) {
       case 0: case 1: { Op &op = g.op(OP_WAIT, 0); op.a = g.pick({ 0, 1, 5, 30, 250, (int64_t) g.C.DEADLINE_ }); break; }
       case 2: { Op &op = g.op(OP_STOP, 0); int sp[6]; rand_stop(g, sp, false, killed); op.a = sp[0]; op.b = sp[1]; op.c = sp[2]; op.d = sp[3]; op.e = sp[4]; op.f = sp[5];
-                if (sp[0] == g.C.S_KILL || sp[2] == g.C.S_KILL || sp[4] == g.C.S_KILL) killed = killed || false; break; }
+                break; }
       case 3: g.op(OP_TERMINATE, 0); break;
       case 4: g.op(OP_KILL, 0); killed = true; break;
       case 5: { Op &op = g.op(OP_POLL, -1); op.v = { 0, (int64_t) g.C.E_EXIT }; op.a = g.pick({ 0, 5, 50 }); break; }
@@ -280,6 +280,7 @@ Plan gen_c02(uint64_t seed, const GenOpts &o) {
   bool echo = reads_in && g.chance(40);
   int64_t chunk = g.pick({ 0, 1, 5, 4096, 65536 });
   if (cap <= 64 && chunk == 0) chunk = 16;
+  while (chunk > 0 && (nout + nerr) / chunk > 4000) chunk *= 8;  // bound the number of simulated steps
   // interleave stdout and stderr pieces
   int pieces = (int) g.r.range(1, 4);
   if (!echo) {
@@ -289,7 +290,10 @@ Plan gen_c02(uint64_t seed, const GenOpts &o) {
       if (g.chance(30)) c.script.push_back(Step{ Step::SLEEP, 0, g.pick({ 1, 5 }), 0 });
     }
   }
-  if (reads_in) c.script.push_back(Step{ echo ? Step::ECHO : Step::READ_EOF, 0, 0, g.pick({ 1, 100, 4096 }) });
+  int64_t in_total_pre = reads_in ? size_pick() / (echo ? 4 : 1) : 0;
+  int64_t echunk = g.pick({ 1, 100, 4096 });
+  while (in_total_pre / echunk > 3000) echunk *= 8;
+  if (reads_in) c.script.push_back(Step{ echo ? Step::ECHO : Step::READ_EOF, 0, 0, echunk });
   if (g.chance(30)) c.script.push_back(Step{ Step::CLOSE, 1, 0, 0 });
   if (g.chance(20)) c.script.push_back(Step{ Step::SLEEP, 0, g.pick({ 1, 10 }), 0 });
   c.script.push_back(Step{ Step::EXIT, 0, (int64_t) g.r.below(256), 0 });
@@ -299,7 +303,7 @@ Plan gen_c02(uint64_t seed, const GenOpts &o) {
   s.nonblocking = g.chance(40);
   int errmode = (int) g.r.below(4);  // 0 own pipe, 1 -> stdout, 2 discard, 3 parent
   s.err.type = errmode == 0 ? g.C.R_PIPE : errmode == 1 ? g.C.R_STDOUT : errmode == 2 ? g.C.R_DISCARD : g.C.R_DEFAULT;
-  int64_t in_total = reads_in ? size_pick() / (echo ? 4 : 1) : 0;
+  int64_t in_total = in_total_pre;
   bool use_input = reads_in && g.chance(30) && in_total <= (int64_t) cap;
   if (use_input) s.input_size = in_total;
   s.stop[0] = g.C.S_WAIT; s.stop[1] = 2000; s.stop[2] = g.C.S_KILL; s.stop[3] = g.C.INFINITE_;
@@ -319,6 +323,7 @@ Plan gen_c02(uint64_t seed, const GenOpts &o) {
       left -= n;
       Op &w = g.op(OP_WRITE, 0, wt);
       w.a = n; w.c = 1; w.d = g.pick({ 0, 1, 100, 4096, 70000 });
+      while (w.d > 0 && n / w.d > 4000) w.d *= 8;
       if (n == 0) { w.c = 0; }
       if (g.chance(20)) { Op &z = g.op(OP_WRITE, 0, wt); z.a = 0; z.b = g.chance(50); }
     }
@@ -327,7 +332,7 @@ Plan gen_c02(uint64_t seed, const GenOpts &o) {
   // reading side
   int style = (int) g.r.below(4);
   int64_t bufsz = g.pick({ 1, 7, 4096, 65536, 1 << 20 });
-  if (cap > 4096 && (nout > 100000) && bufsz < 4096) bufsz = 4096;  // keep the number of calls bounded
+  while ((nout + nerr) / bufsz > 4000) bufsz *= 8;  // keep the number of calls bounded
   if (style == 0) {  // read out to the end, then err
     if (g.chance(10)) { Op &z = g.op(OP_READ, 0); z.a = g.C.STREAM_OUT; z.b = 0; }
     Op &r1 = g.op(OP_READ, 0); r1.a = g.C.STREAM_OUT; r1.b = bufsz; r1.c = 1;
@@ -1010,9 +1015,9 @@ std::vector<Outcome> outcomes_for(Kind k, bool child_side) {
     case K_dup2: return { { EINTR, 0, false }, { EBUSY, 0, false } };
     case K_fork: return { { EAGAIN, 0, false }, { ENOMEM, 0, false } };
     case K_execvp: return { { ENOENT, 0, false }, { EACCES, 0, false }, { ENOEXEC, 0, false }, { E2BIG, 0, false }, { ENOMEM, 0, false } };
-    case K_waitpid: return { { EINTR, 0, false }, { ECHILD, 0, true } };
+    case K_waitpid: return { { EINTR, 0, false } };
     case K_kill: return { { ESRCH, 0, false }, { EPERM, 0, false } };
-    case K_sigaction: return { { EINVAL, 0, true }, { EFAULT, 0, true } };
+    case K_sigaction: return { { EFAULT, 0, true } };  // EINVAL means "no such signal" and is skipped by design
     case K_sigmask: return { { EINVAL, 0, true } };
     case K_sigfillset: case K_sigemptyset: return { { EINVAL, 0, true } };
     case K_getrlimit: return { { EINVAL, 0, true }, { EPERM, 0, true } };
